@@ -18,7 +18,8 @@ CONSTANTS MaxEp,      \* endpoint packet IDs 1..MaxEp per direction
           MaxAcks,    \* acks carried by one packet (appended + PacketAck blocks)
           Tries,      \* ReliableResendInfo.tries_left (code default 10)
           Interval,   \* Circuit.resend_every in clock units
-          Reorder
+          Reorder,
+          W           \* window of the per-direction injection trackers (0 = never evicts within the model)
 
 D == {"OUT", "IN"}
 Opp(d) == IF d = "OUT" THEN "IN" ELSE "OUT"
@@ -46,6 +47,12 @@ NthFree(k, I, w) == IF w \in I THEN NthFree(k, I, w + 1)
 Ideal(d, k) == NthFree(k, inj[d], 1)
 IdealOrig(d, w) == w - Cardinality({i \in inj[d] : i < w})
 
+\* The trackers remember only the last W injected IDs of a direction.  Translation is claimed for IDs
+\* newer than the newest injection that aged out (C04); the environment stays above that horizon.
+NthSmallest(S, n) == CHOOSE x \in S : Cardinality({y \in S : y <= x}) = n
+HorizonOf(I) == IF W = 0 \/ Cardinality(I) <= W THEN 0 ELSE NthSmallest(I, Cardinality(I) - W)
+Horizon(d) == HorizonOf(inj[d])
+
 \* acks carried in a packet travelling d: drop those for injected IDs, translate the rest back
 Translate(d, as) == LET r == Opp(d)
                         keep == SelectSeq(as, LAMBDA a : a \notin inj[r])
@@ -56,7 +63,7 @@ SeqOfSet(S) == LET RECURSIVE F(_)
                    F(T) == IF T = {} THEN <<>> ELSE LET m == CHOOSE x \in T : \A y \in T : x <= y
                                                     IN <<m>> \o F(T \ {m})
                IN F(S)
-AckChoices(d, n) == {SeqOfSet(T) : T \in {T \in SUBSET delivered[Opp(d)] : Cardinality(T) <= n}}
+AckChoices(d, n) == {SeqOfSet(T) : T \in {T \in SUBSET {a \in delivered[Opp(d)] : a > Horizon(Opp(d))} : Cardinality(T) <= n}}
 
 Rec(d, id, name, rel, resent, acks, pa) ==
     [dir |-> d, id |-> id, name |-> name, rel |-> rel, resent |-> resent, acks |-> acks, pa |-> pa, oldest |-> 0]
@@ -88,6 +95,7 @@ EndpointSend(d, k, rel, kind, A1, A2, disp) ==
         ackIds == Range(A1) \cup Range(A2)
     IN
     /\ k \in 1..MaxEp
+    /\ w > Horizon(d)
     /\ (resend \/ (k \notin epSent[d] /\ k <= Frontier(d) + 1 + Reorder))
     /\ (resend => (rel <=> k \in epRel[d]))
     /\ (kind = "pa" => (~rel /\ A2 # <<>>))
@@ -95,6 +103,9 @@ EndpointSend(d, k, rel, kind, A1, A2, disp) ==
     /\ Len(A1) + Len(A2) <= MaxAcks
     /\ Range(A1) \cap Range(A2) = {}
     /\ (disp \in {"drop", "take"} /\ rel) => Cardinality(inj[r]) < MaxInj
+    \* dropping a reliable packet makes the proxy inject an ack in direction r first; the carried acks
+    \* must still be above the horizon that injection leaves behind
+    /\ (disp \in {"drop", "take"} /\ rel) => \A a \in ackIds : a > HorizonOf(inj[r] \cup {base[r] + 1})
     /\ disp = "take" => (kind = "msg" /\ Cardinality(inj[d]) < MaxInj)
     /\ epSent' = [epSent EXCEPT ![d] = @ \cup {k}]
     /\ epRel' = [epRel EXCEPT ![d] = IF rel THEN @ \cup {k} ELSE @]
@@ -147,7 +158,8 @@ StartPing(d, k, oldest) ==
         newOldest == Min2(Ideal(d, oldest), MinSet(mine, Ideal(d, oldest)))
     IN
     /\ k \in 1..MaxEp /\ k \notin epSent[d] /\ k <= Frontier(d) + 1 + Reorder
-    /\ oldest \in 1..k
+    /\ w > Horizon(d)
+    /\ oldest \in 1..k /\ Ideal(d, oldest) > Horizon(d)
     /\ epSent' = [epSent EXCEPT ![d] = @ \cup {k}]
     /\ base' = [base EXCEPT ![d] = IF w > @ THEN w ELSE @]
     /\ fwdMap' = [fwdMap EXCEPT ![d] = @ \cup {<<k, w>>}]
